@@ -7,6 +7,7 @@ import (
 	"math/big"
 	"reflect"
 	"sort"
+	"time"
 
 	"github.com/datastax/go-cassandra-native-protocol/datacodec"
 	"github.com/datastax/go-cassandra-native-protocol/datatype"
@@ -395,6 +396,26 @@ func usedDestinationsAndExtremes(res *lp.Result, prop string) {
 			if _, err := datacodec.Varint.Decode(enc, back, primitive.ProtocolVersion4); err != nil || back.Cmp(new(big.Int).SetUint64(v)) != 0 {
 				res.Add(lp.Finding{Kind: "violation", What: "value does not round-trip: varint from an unsigned Go value", Input: id, Impl: fmt.Sprint(back, err)})
 			}
+		}
+	}
+	// (d) a time.Time with a sub-millisecond part as a timestamp source: the milliseconds are the FLOOR of the instant (what the
+	//     codec documents — Java's Instant.toEpochMilli — and what Cql/Props/C13Time.lean proves of the model), before and after the Epoch
+	for _, c := range []struct {
+		sec, nsec int64
+		ms        int64
+	}{{1700000000, 999600000, 1700000000999}, {1700000000, 999499999, 1700000000999}, {0, 999999, 0}, {-1, 999500000, -1}, {-1, 999999999, -1},
+		{-1, 1, -1000}, {-2, 500000, -2000}, {5, 1500000, 5001}} {
+		t := time.Unix(c.sec, c.nsec).UTC()
+		id := fmt.Sprintf("%s timestamp from time.Time %s (unix %d s + %d ns)", prop, t.Format(time.RFC3339Nano), c.sec, c.nsec)
+		res.Case(id, true)
+		res.Count("timestamp-sub-millisecond")
+		enc, err := datacodec.Timestamp.Encode(t, primitive.ProtocolVersion4)
+		want := binary.BigEndian.AppendUint64(nil, uint64(c.ms))
+		if err != nil {
+			res.Add(lp.Finding{Kind: "violation", What: "timestamp refuses a time.Time with a sub-millisecond part", Input: id, Impl: firstWords(err.Error())})
+		} else if string(enc) != string(want) {
+			res.Add(lp.Finding{Kind: "violation", What: "encoded bytes differ from the specification's format: timestamp of a time.Time with a sub-millisecond part is not the floor of the instant in milliseconds",
+				Input: id, Impl: fmt.Sprintf("%x", enc), Model: fmt.Sprintf("%x (= %d ms)", want, c.ms)})
 		}
 	}
 }
